@@ -132,6 +132,7 @@ pub fn check(case: &ProgCase, info: &mut CaseInfo) -> Result<(), String> {
 fn strategy_streams() -> BoxedStrategy<ProgCase> {
     let mut m = gen::ConfigMenu::all_transports();
     m.pin_cap = 130;
+    m.window = gen::WindowSize::Wide;
     (gen::config(m), 0u8..10)
         .prop_flat_map(|(cfg, wild)| {
             let (lw, lh) = cfg.logical_size(cfg.orient);
